@@ -356,6 +356,9 @@ pub struct StallCase {
     pub stall_s: u8,
     /// further small calls issued after the stall
     pub later: u8,
+    /// both sides offer the distribution-header (atom cache) framing
+    #[serde(default)]
+    pub header: bool,
 }
 
 pub fn stall_oracle(c: &StallCase) -> Verdict {
@@ -363,7 +366,9 @@ pub fn stall_oracle(c: &StallCase) -> Verdict {
     let c2 = c.clone();
     let res = run_case(Duration::from_secs(90), move |bed| async move {
         let c = c2;
-        let (node, mut p) = node_with_peer(&bed, u64::MAX & !edp_client::flags::DistributionFlags::DIST_HDR_ATOM_CACHE.as_u64()).await?;
+        // (the node offers its default flags; whether header framing is negotiated is the peer's choice here)
+        let hdr = edp_client::flags::DistributionFlags::DIST_HDR_ATOM_CACHE.as_u64();
+        let (node, mut p) = node_with_peer(&bed, if c.header { u64::MAX } else { u64::MAX & !hdr }).await?;
         let local = tokio::task::LocalSet::new();
         let returned = Rc::new(RefCell::new(0usize));
         let big = vec![0xABu8; c.kib as usize * 1024];
@@ -442,8 +447,15 @@ pub fn stall_oracle(c: &StallCase) -> Verdict {
     }
     // whatever reached the peer is a sequence of whole, well-formed requests, each call's at most once, in issue order
     let mut seen: Vec<i64> = vec![];
+    let mut peer_cache = refmodel::dist::PeerCache::default();
     for (i, f) in frames.iter().enumerate() {
-        let first_arg = parse_pass_through(f).ok().and_then(|(ctrl, payload)| {
+        let parsed = if f.first() == Some(&131) {
+            // distribution-header framing: read with the independent header reader (one cache for the connection)
+            refmodel::dist::read_dist_message(f, &mut peer_cache).ok().map(|m| (m.control, m.payload))
+        } else {
+            parse_pass_through(f).ok()
+        };
+        let first_arg = parsed.and_then(|(ctrl, payload)| {
             let Value::Tuple(c) = &ctrl else { return None };
             if c.len() != 4 || c[0] != Value::int(6) || c[3] != Value::atom("rex") {
                 return None;
@@ -480,7 +492,7 @@ pub fn stall_oracle(c: &StallCase) -> Verdict {
 }
 
 fn stall_strategy() -> impl Strategy<Value = StallCase> {
-    (prop_oneof![Just(1u32), Just(300), Just(4096), Just(9000), 5000u32..16000], any::<u8>(), any::<u8>(), any::<u8>()).prop_map(|(kib, timeout_s, stall_s, later)| StallCase { kib, timeout_s, stall_s, later })
+    (prop_oneof![Just(1u32), Just(300), Just(4096), Just(9000), 5000u32..16000], any::<u8>(), any::<u8>(), any::<u8>(), any::<bool>()).prop_map(|(kib, timeout_s, stall_s, later, header)| StallCase { kib, timeout_s, stall_s, later, header })
 }
 
 pub fn run(run: &mut Run) {
